@@ -242,7 +242,142 @@ fn unused_intermediate(ctx: &mut Ctx, rng: &mut Rng) {
     let _ = rng;
 }
 
+/// An over-long `advance` (the producer claims more bytes than the view has
+/// left) must be refused by the view's assertion *before* anything is committed:
+/// after the panic has unwound through the intermediate objects, every owner
+/// (container, parent view) has grown by exactly the bytes really written.
+fn overadvance(ctx: &mut Ctx, rng: &mut Rng) {
+    let cap = rng.usize_below(65);
+    let pre_len = rng.usize_below(cap + 1);
+    let pre: Vec<u8> = (0..pre_len).map(|i| 0x30 ^ i as u8).collect();
+    let store = rng.below(4);
+    let names = ["vec", "arrayvec64", "slice-nested", "slice-capped-nested"];
+    let name = names[store as usize];
+    let avail = match store {
+        1 => 64 - pre_len.min(64),
+        _ => cap - pre_len,
+    };
+    let k = rng.usize_below(avail + 1);
+    let written = rng.bytes(k);
+    let excess = 1 + match rng.below(3) {
+        0 => 0,
+        1 => rng.usize_below(8),
+        _ => rng.usize_below(200),
+    };
+    let claim = avail - k + excess;
+    let case = json!({"overadvance": true, "store": name, "capacity": cap, "pre_len": pre_len, "written_first": k, "advance": claim, "remaining": avail - k});
+    // returns Ok(()) when the over-long advance was refused and nothing but the k bytes is visible
+    let r = catch(|| -> Result<(), Flaw> {
+        let over = |b: &mut BufferRef| -> Result<(), Flaw> {
+            b.write(&written).map_err(|_| Flaw("fitting-write-refused".into(), String::new()))?;
+            let before = b.remaining();
+            let w = written.clone();
+            let inner = catch(|| {
+                with_buffer(&mut *b, |mut v| {
+                    unsafe { v.advance(claim) };
+                })
+            });
+            let _ = w;
+            if inner.is_ok() {
+                return Err(Flaw("overlong-advance-accepted".into(), format!("advance({}) with {} remaining returned", claim, before)));
+            }
+            Ok(())
+        };
+        match store {
+            0 => {
+                let mut v: Vec<u8> = Vec::with_capacity(cap);
+                let real_cap = v.capacity();
+                v.extend_from_slice(&pre);
+                let claim_v = real_cap - pre_len - k + excess;
+                let inner = catch(|| {
+                    with_buffer(&mut v, |mut b| {
+                        let _ = b.write(&written);
+                        unsafe { b.advance(claim_v) };
+                    })
+                });
+                if inner.is_ok() {
+                    return Err(Flaw("overlong-advance-accepted".into(), format!("advance({}) returned", claim_v)));
+                }
+                if v.len() != pre_len + k || v.len() > v.capacity() {
+                    return Err(Flaw("container-after-refused-advance".into(), format!("vec len {} expected {} (capacity {})", v.len(), pre_len + k, v.capacity())));
+                }
+                if v[..pre_len] != pre[..] || v[pre_len..] != written[..] {
+                    return Err(Flaw("container-after-refused-advance".into(), "vec contents differ".into()));
+                }
+            }
+            1 => {
+                let mut g: Guarded<[u8; 64]> = Guarded { pre: [0x6b; 32], av: ArrayVec::new(), post: [0x6b; 32] };
+                let pl = pre_len.min(64);
+                for &x in &pre[..pl] {
+                    g.av.push(x);
+                }
+                let inner = catch(|| {
+                    with_buffer(&mut g.av, |mut b| {
+                        let _ = b.write(&written);
+                        unsafe { b.advance(claim) };
+                    })
+                });
+                if inner.is_ok() {
+                    return Err(Flaw("overlong-advance-accepted".into(), format!("advance({}) returned", claim)));
+                }
+                if g.av.len() != pl + k {
+                    return Err(Flaw("container-after-refused-advance".into(), format!("arrayvec len {} expected {}", g.av.len(), pl + k)));
+                }
+                if g.av[pl..] != written[..] || g.pre != [0x6b; 32] || g.post != [0x6b; 32] {
+                    return Err(Flaw("container-after-refused-advance".into(), "arrayvec contents or guards differ".into()));
+                }
+            }
+            _ => {
+                // nested (and capped nested) view of a slice: the parent's counter is the owner
+                let mut can = Canary::new(cap, 0xc3);
+                let r = {
+                    let win: &mut [u8] = &mut can.window()[pre_len..];
+                    with_buffer(win, |mut b| -> Result<(), Flaw> {
+                        let before = b.remaining();
+                        if store == 3 {
+                            let c = avail;
+                            let inner = catch(|| {
+                                with_buffer((&mut b).cap_at(c), |mut v| {
+                                    let _ = v.write(&written);
+                                    unsafe { v.advance(claim) };
+                                })
+                            });
+                            if inner.is_ok() {
+                                return Err(Flaw("overlong-advance-accepted".into(), format!("advance({}) returned", claim)));
+                            }
+                        } else {
+                            over(&mut b)?;
+                        }
+                        let after = b.remaining();
+                        if after > before || before - after != k {
+                            return Err(Flaw("parent-count-after-refused-advance".into(), format!("parent grew by {} expected {}", before.wrapping_sub(after), k)));
+                        }
+                        if b.initialized() != &written[..] {
+                            return Err(Flaw("initialized-differs".into(), String::new()));
+                        }
+                        Ok(())
+                    })
+                };
+                r?;
+                if !can.intact() {
+                    return Err(Flaw("wrote-outside-capacity".into(), "canary around the slice changed".into()));
+                }
+            }
+        }
+        Ok(())
+    });
+    ctx.count("overlong_advances_refused", if matches!(r, Ok(Ok(()))) { 1 } else { 0 });
+    match r {
+        Err(p) => ctx.panic_violation("over-long advance", name, &p, case),
+        Ok(Err(Flaw(what, detail))) => ctx.violation("model", name, &what, json!({"detail": detail}), case),
+        Ok(Ok(())) => {}
+    }
+}
+
 fn one(ctx: &mut Ctx, rng: &mut Rng) {
+    if rng.chance(1, 16) {
+        overadvance(ctx, rng);
+    }
     if rng.chance(1, 16) {
         unused_intermediate(ctx, rng);
     }
@@ -408,6 +543,7 @@ fn main() {
     ctx.assumptions = vec![
         "a write that does not fit may commit any prefix that still fits before it reports CapacityError (both all-or-nothing and the current prefix-commit behaviour satisfy the statement)".into(),
         "cap_at with a length above the remaining capacity is outside the domain (it panics when the view is created)".into(),
+        "an over-long advance (unsafe, used by the reader/decompressor glue) must be refused by the view's assertion before anything is committed: after the panic has unwound, the owner has grown by exactly the bytes really written".into(),
         "memory half: this monitor and all others are re-run under Miri (without an aliasing model: the crate deliberately holds two unique references) and AddressSanitizer by the thorough tier; canaries and guard fields catch adjacent overwrites natively".into(),
     ];
     ctx.arm("c19", 1800.0);
